@@ -235,7 +235,7 @@ def gen(rng, tier, dist):
         text, slots, kind = "", [], "sc"
         for j in range(nw):
             if rng.random() < 0.15:
-                t, sl = structured(rng); kind = "xs"; bump("structured")
+                t, sl = structured(rng); bump("structured")
                 # "b ... c" takes a preceding value of b's type for the "a" of "a b ... c"
                 # (doc/Guide.adoc): keep such a neighbour away unless it is meant
                 if " ... " in t and slots and slots[-1][0] == sl[-1][0]:
